@@ -249,6 +249,40 @@ func (li *loopInfo) classify() (shape string, desc string) {
 		if !ok {
 			continue
 		}
+		// draining: the exit tests Len() of a container against zero and every way round the
+		// loop pops one element from it (container/heap.Pop)
+		for _, side := range [][2]ssa.Value{{bo.X, bo.Y}, {bo.Y, bo.X}} {
+			cl, isCall := stripConv(side[0]).(*ssa.Call)
+			z, isZero := constInt(side[1])
+			if !isCall || !isZero || z != 0 || !strings.HasSuffix(CalleeName(cl.Common()), ").Len") || len(cl.Common().Args) != 1 {
+				continue
+			}
+			cell := cellOf(cl.Common().Args[0])
+			if cell == nil {
+				continue
+			}
+			all := len(li.Latch) > 0
+			for _, l := range li.Latch {
+				found := false
+				for b := range li.Blocks {
+					for _, in := range b.Instrs {
+						c2, ok := in.(*ssa.Call)
+						if !ok || CalleeName(c2.Common()) != "container/heap.Pop" || len(c2.Common().Args) != 1 {
+							continue
+						}
+						if cellOf(c2.Common().Args[0]) == cell && (b == l || b.Dominates(l)) {
+							found = true
+						}
+					}
+				}
+				if !found {
+					all = false
+				}
+			}
+			if all {
+				return "consuming", ""
+			}
+		}
 		for _, side := range [][2]ssa.Value{{bo.X, bo.Y}, {bo.Y, bo.X}} {
 			v, bound := side[0], side[1]
 			// consuming: len(φ) against a constant
@@ -413,4 +447,25 @@ var c09LoopTable = []c09LoopRow{
 	{fn: "pkg/trie/rmt.(*nodeLocation).index", exits: "strconv.FormatInt", reason: "left-pads a binary string by one character per iteration up to height-layerIndex, which is at most 65 (height = ceil(log2(size))+1)"},
 	{fn: "pkg/trie/rmt.calculatePathNodes", exits: "", reason: "the head index is replaced by its parent idx>>1 (strictly smaller, and idx >= 1 because zeros are dropped on entry); the root index returns, index 1 fails in newNodeLocation: the sum of the work list strictly decreases"},
 	{fn: "pkg/trie/smt.CalculateRoot", exits: "", reason: "each iteration removes the head query and re-inserts it one level higher (sliceBinaryBitmap(1)) or returns: the total remaining height strictly decreases"},
+}
+
+// cellOf: the local variable (Alloc) a value is, points to, or was loaded from.
+func cellOf(v ssa.Value) *ssa.Alloc {
+	for i := 0; i < 4 && v != nil; i++ {
+		switch x := v.(type) {
+		case *ssa.Alloc:
+			return x
+		case *ssa.MakeInterface:
+			v = x.X
+		case *ssa.UnOp:
+			v = x.X
+		case *ssa.ChangeType:
+			v = x.X
+		case *ssa.Convert:
+			v = x.X
+		default:
+			return nil
+		}
+	}
+	return nil
 }
